@@ -27,7 +27,7 @@ type shifter interface{ VerifShift(time.Duration) }
 func TestC04(t *testing.T) {
 	world.Quiet()
 	run := rep.New("C04", "fault_enumeration",
-		"every assignment of {ok, refuse, reset-before-headers} (asserted) and {closed-without-answer, garbage} (explored) to 1..3 endpoints x both engines x three balancers x request body in {none, small, 100 KB}, each followed by a follow-up request before any health check and by a re-admitting health round; plus, on the olla engine, histories that open an endpoint's engine breaker (five garbage answers) followed by every asserted assignment for the other endpoints and a simulated 31 s wait. distinct = distinct (engine, balancer, assignment, body class)")
+		"every assignment of {ok, refuse, reset-before-headers} (asserted) and {closed-without-answer, garbage} (explored) to 1..3 endpoints x both engines x three balancers x request body in {none, small, 100 KB; declared length or chunked upload}, each followed by a follow-up request before any health check and by a re-admitting health round; plus, on the olla engine, histories that open an endpoint's engine breaker (five garbage answers) followed by every asserted assignment for the other endpoints and a simulated 31 s wait. distinct = distinct (engine, balancer, assignment, body class)")
 	run.Assume("refused connections leave no trace on a socket: whether a refusing endpoint was tried is inferred only where the property forces it (all candidates failing, or higher priority under the priority balancer)")
 	seed := rep.Seed()
 	kinds := append(append([]string{}, asserted...), explored...)
@@ -183,21 +183,25 @@ func runChunk(run *rep.Run, rng *rand.Rand, eng, bal string, as [][]string, id i
 
 func oneCase(run *rep.Run, rng *rand.Rand, f *fw.FW, _ interface{}, a []string, nonce string, openIdx int) {
 	eng, bal := f.W.Spec.Engine, f.W.Spec.Balancer
-	bodyClass := []string{"none", "small", "100k"}[rng.Intn(3)]
+	bodyClass := []string{"none", "small", "100k", "small-chunked", "100k-chunked"}[rng.Intn(5)]
 	var body []byte
 	switch bodyClass {
 	case "none":
 		body = []byte{}
-	case "small":
+	case "small", "small-chunked":
 		body = []byte(fmt.Sprintf(`{"model":"mall","nonce":%q,"x":"%s"}`, nonce, backend.RandBytes(rng, 50, false)))
-	case "100k":
+	case "100k", "100k-chunked":
 		body = []byte(fmt.Sprintf(`{"model":"mall","nonce":%q,"x":"%s"}`, nonce, backend.RandBytes(rng, 100000, false)))
 	}
 	sum := sha256.Sum256(body)
 	sha := hex.EncodeToString(sum[:])
 	hdr := map[string]string{"X-Custom-A": "va-" + nonce, "X-Custom-B": "vb " + nonce}
+	if strings.HasSuffix(bodyClass, "-chunked") {
+		hdr["X-Verif-Upload"] = "chunked" // sent without a declared length
+	}
 	httpc := world.NewClient(false, 10*time.Second)
 	c := f.Run(httpc, nonce, mkFaults(a), "/olla/proxy/v1/chat/completions", body, hdr)
+	delete(hdr, "X-Verif-Upload") // a harness directive, not a header that was sent
 	key := caseKey(eng, bal, a, bodyClass)
 	if openIdx >= 0 {
 		key = fmt.Sprintf("circuit-open@b%d:", openIdx) + key
